@@ -651,6 +651,11 @@ func (w *World) closureCases(lit *ssa.Function, errIdx int, nr *noReturnInfo) []
 			if bv, ok := constBool(res); ok {
 				cc.consts[i] = bv
 			}
+			// a flag returned as os.IsNotExist(err) of the very error returned: where it is true the
+			// error is the exempt "missing file" case, so the obligated case has it false
+			if c, ok := res.(*ssa.Call); ok && calleeName(&c.Call) == "os.IsNotExist" && len(c.Call.Args) == 1 && c.Call.Args[0] == ev {
+				cc.consts[i] = false
+			}
 		}
 		out = append(out, cc)
 	}
